@@ -72,6 +72,7 @@ def gen_instance(inst, wd):
     universe = inst.get("universe", inst["keys"])
     dump, kbd = dump_cfg(inst["kbd"], universe, wd, inst["name"])
     consts, caps = gen_constants(dump, inst.get("custom_th"), inst.get("caps"), inst.get("track_hist"))
+    consts += "\nBugDef == " + tla_val(inst.get("bug", "none"))
     mod = "MC_" + inst["name"]
     mon = inst.get("monitor")  # dict: module, params
     if mon:
